@@ -168,9 +168,9 @@ func (m *monitor) onGet(k string, hit bool, v int, now time.Time) {
 	idHit, idMiss := "get-returned-expired-deleted-or-reset-value", "get-missed-live-entry"
 	if m.seq {
 		idHit, idMiss = "get-hit-expired", "get-missed-live-entry-sequential"
-		if r == nil {
-			idHit = "get-hit-deleted-or-reset"
-		}
+	}
+	if r == nil {
+		idHit = "get-hit-deleted-or-reset"
 	}
 	switch {
 	case hit && !want:
